@@ -3,7 +3,10 @@
 package objects
 
 import (
+	"fmt"
+
 	"github.com/apache/yunikorn-core/pkg/common/security"
+	"github.com/apache/yunikorn-core/pkg/plugins"
 	"github.com/apache/yunikorn-core/pkg/rmproxy/rmevent"
 	"github.com/apache/yunikorn-scheduler-interface/lib/go/si"
 )
@@ -201,4 +204,50 @@ func appInv(w *vAppW) bool {
 		}
 	}
 	return ok
+}
+
+// ---- shim predicate plugin and node iterator provided by the harness ----
+
+type vPlugin struct {
+	deny map[string]bool // allocationKey|nodeID -> refuse
+}
+
+func (p *vPlugin) UpdateAllocation(*si.AllocationResponse) error   { return nil }
+func (p *vPlugin) UpdateApplication(*si.ApplicationResponse) error { return nil }
+func (p *vPlugin) UpdateNode(*si.NodeResponse) error               { return nil }
+func (p *vPlugin) Predicates(args *si.PredicatesArgs) error {
+	if p.deny[args.AllocationKey+"|"+args.NodeID] {
+		return fmt.Errorf("predicate refused")
+	}
+	return nil
+}
+func (p *vPlugin) PreemptionPredicates(*si.PreemptionPredicatesArgs) *si.PreemptionPredicatesResponse {
+	return nil
+}
+func (p *vPlugin) SendEvent([]*si.EventRecord)                                           {}
+func (p *vPlugin) UpdateContainerSchedulingState(*si.UpdateContainerSchedulingStateRequest) {}
+func (p *vPlugin) GetStateDump() (string, error)                                         { return "", nil }
+
+// vRegisterPlugin installs a plugin whose verdict per (ask, node) is symbolic
+func vRegisterPlugin(keys []string, nodes []string) *vPlugin {
+	p := &vPlugin{deny: map[string]bool{}}
+	for _, k := range keys {
+		for _, n := range nodes {
+			if vBool("deny." + k + "." + n) {
+				p.deny[k+"|"+n] = true
+			}
+		}
+	}
+	plugins.RegisterSchedulerPlugin(p)
+	return p
+}
+
+type vNodeIter struct{ nodes []*Node }
+
+func (it *vNodeIter) ForEachNode(f func(*Node) bool) {
+	for _, n := range it.nodes {
+		if !f(n) {
+			return
+		}
+	}
 }
